@@ -594,4 +594,54 @@ theorem getIndexU_eq (dims idx : List Nat) (hpos : ∀ d ∈ dims, 0 < d) (hb : 
   exact getIndexRevU_eq _ _ _ _ (fun d hd => hpos d (by simpa using hd)) (by omega)
     (by rw [prod_reverse]; omega)
 
+/-! ### the checked product of the constructors -/
+
+theorem prodUFrom_ok : ∀ (ds : List Nat) (acc : Nat), (∀ d ∈ ds, 0 < d) → acc * prod ds < 2 ^ 64 →
+    prodUFrom acc ds = .ok (acc * prod ds)
+  | [], acc, _, _ => by simp [prodUFrom, prod]
+  | d :: ds, acc, hpos, hb => by
+    have hP : 0 < prod ds := prod_pos (fun x hx => hpos x (by simp [hx]))
+    simp only [prod] at hb ⊢
+    have h1 : acc * d ≤ acc * d * prod ds := Nat.le_mul_of_pos_right _ hP
+    have h2 : acc * d * prod ds = acc * (d * prod ds) := Nat.mul_assoc _ _ _
+    rw [prodUFrom, if_pos (by omega), prodUFrom_ok ds (acc * d) (fun x hx => hpos x (by simp [hx])) (by omega), h2]
+
+theorem prodUFrom_sound : ∀ (ds : List Nat) (acc p : Nat), prodUFrom acc ds = .ok p → p = acc * prod ds
+  | [], acc, p, h => by simp [prodUFrom, prod] at h ⊢; exact h.symm
+  | d :: ds, acc, p, h => by
+    rw [prodUFrom] at h
+    split at h
+    · rw [prodUFrom_sound ds _ p h, prod, Nat.mul_assoc]
+    · cases h
+
+theorem prodUFrom_error : ∀ (ds : List Nat) (acc : Nat) (e : Panic), prodUFrom acc ds = .error e → e = .overflow
+  | [], _, _, h => by simp [prodUFrom] at h
+  | d :: ds, acc, e, h => by
+    rw [prodUFrom] at h
+    split at h
+    · exact prodUFrom_error ds _ e h
+    · cases h; rfl
+
+theorem prodU_ok (dims : List Nat) (hpos : ∀ d ∈ dims, 0 < d) (hb : prod dims < 2 ^ 64) :
+    prodU dims = .ok (prod dims) := by
+  unfold prodU
+  rw [prodUFrom_ok dims 1 hpos (by omega), Nat.one_mul]
+
+theorem prodUFrom_lt : ∀ (ds : List Nat) (acc p : Nat), acc < 2 ^ 64 → prodUFrom acc ds = .ok p → p < 2 ^ 64
+  | [], acc, p, ha, h => by simp [prodUFrom] at h; omega
+  | d :: ds, acc, p, ha, h => by
+    rw [prodUFrom] at h
+    split at h
+    · exact prodUFrom_lt ds _ p (by assumption) h
+    · cases h
+
+theorem prodU_overflow (dims : List Nat) (hb : 2 ^ 64 ≤ prod dims) : prodU dims = .error .overflow := by
+  unfold prodU
+  cases h : prodUFrom 1 dims with
+  | error e => rw [prodUFrom_error dims 1 e h]
+  | ok p =>
+    have h1 := prodUFrom_sound dims 1 p h
+    have h2 := prodUFrom_lt dims 1 p (by omega) h
+    omega
+
 end Rlib.Tensor
